@@ -10,13 +10,18 @@ PROPS["C06"] = dict(
                "observed: NOTIFICATION octets, session state, ListPath ADJ_IN / GLOBAL, the third speaker's accumulated view). Layer 3 repeats every (catalogue entry, peer type) on PIPELINED sessions: the speaker writes OPEN + KEEPALIVE + [valid routes] + the faulty UPDATE + one more "
                "valid UPDATE back to back without waiting for gobgp (hold time 0 or 9 s), and in 3 of 5 cases the Established handler is held for 1-5 virtual ms at "
                "its verifYield(\"established\") point so that the receive goroutine runs ahead of it; same oracle, plus: the trailing valid UPDATE must have been "
-               "processed whenever the session survives (an unanswered message with a dead receive side is keyed c06:pipelined:unanswered). Oracle: an allowed-set table "
+               "processed whenever the session survives (an unanswered message with a dead receive side is keyed c06:pipelined:unanswered). Layer 4 runs 2-3 SESSIONS OF ONE NEIGHBOUR whose decoding-relevant capabilities change between sessions (four-octet AS on/off, ADD-PATH per family on/off, "
+               "extended message on/off, ipv6-unicast announced or not; every single flip in both directions x peer type x treat-as-withdraw, then PRNG plans): each session "
+               "carries an UPDATE that is well-formed only under THIS session's options (2- or 4-octet AS_PATH incl. an AS number > 65535, path identifiers, > 4096 octets) "
+               "- it must be installed with no reaction (key c06:resession:...:well-formed-penalised) - and one catalogue fault judged under this session's options. "
+               "Oracle: an allowed-set table "
                "written from RFC 7606 s3-s7, RFC 4271 s6.3, RFC 4760 s7, RFC 5065 s5, RFC 6793 s6, RFC 8092, plus metamorphic relations (monotonicity under "
                "a second fault, position independence, no penalty for base UPDATEs in every attribute rotation) and end-effect checks (after treat-as-withdraw "
                "every named prefix is gone; no installed route carries the injected attribute or lacks ORIGIN / AS_PATH / next hop).",
     level_note="Fault enumeration is the right level: the property quantifies over a finite catalogue x positions x pairs x configurations, which is enumerated "
                "rather than sampled at layer 1. Trusts the harness' reading of the RFCs (the table accepts every outcome a MAY/SHOULD or two overlapping RFC 7606 "
-               "rules permit). Sessions negotiate four-octet AS numbers (no AS_TRANS / 2-octet peers), ipv4-unicast + ipv6-unicast only, no extended messages. "
+               "rules permit). Layers 1-3 negotiate four-octet AS numbers, ipv4-unicast + ipv6-unicast, no extended messages; 2-octet-AS sessions (no AS_TRANS / AS4_PATH "
+               "reconstruction), extended messages and sessions without ipv6-unicast appear at layer 4 only, the AS-number-carrying faults left out on 2-octet sessions. "
                "treat-as-withdraw 'off' is set white-box in the peer configuration before the session establishes (the API cannot express it); the TOML "
                "configuration path is not exercised.",
     technique="runtime monitor of the real receive loop (layer 1) and of a whole server in virtual time (layer 2) over an enumerated fault catalogue; reference "
@@ -27,7 +32,7 @@ PROPS["C06"] = dict(
     exhaustive_note="Enumerated completely (both tiers): at layer 1 every single fault of the catalogue x every base UPDATE x every attribute index x {eBGP, iBGP, "
                     "confederation} x treat-as-withdraw {on, off} (ADD-PATH on/off follows the base), and every base x every rotation of its attributes x the 6 "
                     "sessions; at layer 2 every (catalogue entry, peer type, treat-as-withdraw) once and every base once per peer type. Thorough additionally "
-                    "enumerates every unordered pair of catalogue entries x every base x 6 sessions at layer 1 (attribute indices PRNG-drawn). At layer 3 every (catalogue entry, peer type) once with treat-as-withdraw alternating and every base once (delivery options prelude / hold time / hold-up PRNG-drawn). Sampled: fault "
+                    "enumerates every unordered pair of catalogue entries x every base x 6 sessions at layer 1 (attribute indices PRNG-drawn). At layer 3 every (catalogue entry, peer type) once with treat-as-withdraw alternating and every base once (delivery options prelude / hold time / hold-up PRNG-drawn). At layer 4 every single-capability flip (6 capabilities x 2 directions) x peer type x treat-as-withdraw once; bases, faults and multi-flip plans PRNG-drawn. Sampled: fault "
                     "pairs at layer 1 in the quick tier (5000 PRNG (base, pair) draws x 6 sessions), base / index choice and all pairs at layer 2.",
     assumptions=["reactions are ordered none < attribute discard < treat-as-withdraw < session reset; AFI/SAFI disable (RFC 4760 s7) is admitted wherever a reset is",
                  "RFC 7606 s3.c names the Optional and Transitive bits only: a wrong Partial bit may be ignored, treated as withdraw or reset",
@@ -38,7 +43,8 @@ PROPS["C06"] = dict(
                  "with revised handling off, RFC 6793's discard of malformed AS4_PATH / AS4_AGGREGATOR and a reset are both admitted",
                  "a withdraw-only message cannot tell none / discard / treat-as-withdraw apart end to end: any of them is accepted there"],
     must_count=["l1_single_evaluations", "l1_pair_evaluations", "l1_base_evaluations", "l1_position_groups", "l2_sessions", "l2_base_sessions", "l2_pair_sessions",
-                "l2_third_peer_checks", "l3_sessions", "l3_base_sessions", "l3_react_reset", "l3_react_taw", "l3_react_discard", "l3_prelude_true", "l3_prelude_false",
+                "l2_third_peer_checks", "l4_sessions", "l4_wellformed_updates", "l4_faulty_updates", "l4_messages_over_4096", "l4_change_as4", "l4_change_extmsg", "l4_change_ipv6",
+                "l4_change_addpath-v4", "l4_change_addpath-v6", "l3_sessions", "l3_base_sessions", "l3_react_reset", "l3_react_taw", "l3_react_discard", "l3_prelude_true", "l3_prelude_false",
                 "l3_hold_0", "l3_hold_9", "l3_established_held_up_true", "l3_established_held_up_false", "l1_peer_ebgp", "l1_peer_ibgp", "l1_peer_confed", "l1_taw_on", "l1_taw_off", "l2_peer_ebgp", "l2_peer_ibgp",
                 "l2_peer_confed", "l2_taw_on", "l2_taw_off", "l1_addpath_sessions", "l2_addpath_sessions", "l1_react_reset", "l1_react_taw", "l1_react_discard",
                 "l2_react_reset", "l2_react_taw", "l2_react_discard", "catalogue_entries"],
